@@ -21,6 +21,21 @@ from .tables import Tables
 ORACLE_DIR = Path(__file__).resolve().parent.parent / "oracle"
 
 
+def group_trip_counts(se):
+    """Trip-count terms of the counted loops of a (specialised) group routine: range(n) -> n, range(a, b) -> b - a."""
+    out = []
+    its = [info.get("iter") for info in se.loop_info.values() if info.get("iter") is not None]
+    for it in its:
+        if it[0] == "call" and it[2] == ("builtin", "range") and not it[4]:
+            if len(it[3]) == 1:
+                out.append(it[3][0])
+            elif len(it[3]) == 2:
+                out.append(("bin", "-", it[3][1], it[3][0]))
+        elif it[0] == "const" and isinstance(it[1], range) and it[1].step == 1:
+            out.append(("const", len(it[1])))
+    return out
+
+
 def _no_self_calls_unroll(node, seq):
     """Unroll only small constant loops whose body does not call back into the instance (name-building loops)."""
     return seq is not None and len(seq) <= 8 and not any(
@@ -458,17 +473,19 @@ class Engine:
                     seen.add(occ.count)
                     base = occ.count.split("+")[0]
                     se = self.symeval(grp.qualname, bind={grp.params[1]: ("tuple", (("const", occ.count), ("typed", dict, "gdict")))}, unroll=_no_self_calls_unroll)
-                    for e in se.effects:
-                        if e.kind == "call" and e.term[2] == ("builtin", "range") and len(e.term[3]) == 1:
-                            a = e.term[3][0]
-                            if a[0] == "bin" and a[1] == "+" and a[3] == ("const", 1) and a[2][0] == "call" and a[2][2] == ("builtin", "getattr"):
-                                facts["count_plus_one"].add(base)
-                    for info in se.loop_info.values():
-                        it = info.get("iter")
-                        if it is not None and it[0] == "call" and it[2] == ("builtin", "range") and len(it[3]) == 2 and it[3][0] == ("const", 1):
-                            hi = it[3][1]  # range(1, n + 1) idiom: n = hi - 1
-                            if hi[0] == "bin" and hi[1] == "+" and hi[3] == ("const", 2) and hi[2][0] == "call" and hi[2][2] == ("builtin", "getattr"):
-                                facts["count_plus_one"].add(base)
+                    for tc in group_trip_counts(se):
+                        names = {}
+
+                        def symn(t, names=names):
+                            g = getattr_name(t)
+                            if g is not None:
+                                names["G"] = g
+                                return "G"
+                            return show(t)
+
+                        pc = to_poly(tc, symn)
+                        if pc is not None and pc == Poly.sym("G") + 1:
+                            facts["count_plus_one"].add(base)
         return facts
 
     def _eq_const(self, test, var, mod):
